@@ -828,4 +828,50 @@ func c18Bounce(c *Check) {
 		return true
 	})
 	c.Hold("R10", "emitDSN:abort-exists", r.FI.Decl.Pos(), aborts >= 1, "a bounce transaction that fails after Start is never aborted (the downstream delivery stays open)")
+	// the deferred clean-up aborts exactly when the shared error variable is set: never after a successful Commit,
+	// always after a failed stage
+	ast.Inspect(r.FI.Decl.Body, func(n ast.Node) bool {
+		d, ok := n.(*ast.DeferStmt)
+		if !ok {
+			return true
+		}
+		fl, ok := d.Call.Fun.(*ast.FuncLit)
+		if !ok {
+			return true
+		}
+		hasAbort := false
+		for _, call := range callsIn(fl.Body) {
+			if callOn(info, call, objs) == "Abort" {
+				hasAbort = true
+			}
+		}
+		if !hasAbort {
+			return true
+		}
+		lf := c.P.FlowOf(info, fl.Body, "emitDSN$cleanup")
+		abortPts := lf.Find(func(x ast.Node) bool {
+			for _, call := range callsAt(x) {
+				if callOn(info, call, objs) == "Abort" {
+					return true
+				}
+			}
+			return false
+		})
+		w := func(failed bool) func(b *cfgBlock, i int) bool {
+			return lf.World(func(atom ast.Expr) (bool, bool) {
+				if ns, ok := nilTest(info, atom, errObj); ok {
+					return (ns == 1) == failed, true
+				}
+				return false, false
+			})
+		}
+		m := ""
+		if pth, f := lf.Reach(Query{From: []Pt{lf.Entry()}, Inclusive: true, Target: isPt(abortPts), AvoidEdge: w(false)}); f {
+			m = "the clean-up aborts the bounce although no stage failed (a committed report is aborted): " + lf.Describe(pth)
+		} else if pth, f := lf.Reach(Query{From: []Pt{lf.Entry()}, Inclusive: true, Target: lf.IsExitPt, Avoid: isPt(abortPts), AvoidEdge: w(true)}); f {
+			m = "after a failed stage the clean-up does not abort the bounce (the downstream delivery stays open): " + lf.Describe(pth)
+		}
+		c.Hold("R10", "emitDSN:cleanup-aborts-iff-failed", d.Pos(), m == "", m)
+		return false
+	})
 }
